@@ -117,7 +117,10 @@ def apply_to_params(ip, c, params):
     for label, cond in all_clauses(ip, c, 'requires', params):
         ctx.oblige(f'{site}/{label}', cond, 'pre')
         ctx.assume(cond)
-    old = Old(snapshot(dict(params)))
+    oparams = dict(params)
+    for gn, gv in (ctx.ghost.get('globals') or {}).items():
+        oparams.setdefault('G' + gn, gv)      # module globals the callee's contract speaks about
+    old = Old(snapshot(oparams))
     spec = ip.reg.contract_fn(c, 'spec')
     raised = None
     result = None
@@ -145,8 +148,11 @@ def apply_to_params(ip, c, params):
             mods = par.modifies if par is not None else None
         tag = f'{short}#{ctx.count("apply:" + c.key)}'
         _same_inputs(ip, c, tag, params)
+        hp = dict(params)
+        for gn, gv in (ctx.ghost.get('globals') or {}).items():
+            hp['G' + gn] = gv
         for path in (mods or ()):
-            _havoc_path(ip, params, path, tag)
+            _havoc_path(ip, hp, path, tag)
         n_out = 1 + len(c.raises)
         if n_out > 1:
             # which outcome: an unknown but fixed function of (callee, call ordinal), so that body run
